@@ -339,40 +339,60 @@ impl<F: Write + Seek> Directory<F> {
         }
         debug_assert_eq!(self.dir_entry(stream_id).child, consts::NO_STREAM);
 
-        // Restructure the tree.
-        let mut replacement_id = consts::NO_STREAM;
-        loop {
-            let left_sibling = self.dir_entry(stream_id).left_sibling;
-            let right_sibling = self.dir_entry(stream_id).right_sibling;
-            if left_sibling == consts::NO_STREAM
-                && right_sibling == consts::NO_STREAM
-            {
-                break;
-            } else if left_sibling == consts::NO_STREAM {
-                replacement_id = right_sibling;
-                break;
-            } else if right_sibling == consts::NO_STREAM {
-                replacement_id = left_sibling;
-                break;
+        // Restructure the tree.  Entries are relinked rather than moved to a
+        // different slot, so that the stream IDs of all surviving entries
+        // (which open `Stream` handles hold on to) keep referring to them.
+        let left_sibling = self.dir_entry(stream_id).left_sibling;
+        let right_sibling = self.dir_entry(stream_id).right_sibling;
+        let mut touched_ids = Vec::new();
+        let replacement_id = if left_sibling == consts::NO_STREAM
+            || right_sibling == consts::NO_STREAM
+        {
+            let child_id = if left_sibling == consts::NO_STREAM {
+                right_sibling
+            } else {
+                left_sibling
+            };
+            if child_id != consts::NO_STREAM {
+                // The child moves up one level; make it black so that it
+                // cannot end up adjacent to a red parent.
+                self.dir_entry_mut(child_id).color = Color::Black;
+                touched_ids.push(child_id);
             }
+            child_id
+        } else {
+            // Splice out the in-order predecessor (which has no right
+            // sibling) and put it in the place of the removed entry.
+            let mut pred_parent_id = stream_id;
             let mut predecessor_id = left_sibling;
             loop {
-                stream_ids.push(predecessor_id);
                 let next_id = self.dir_entry(predecessor_id).right_sibling;
                 if next_id == consts::NO_STREAM {
                     break;
                 }
+                pred_parent_id = predecessor_id;
                 predecessor_id = next_id;
             }
-            let mut pred_entry = self.dir_entry(predecessor_id).clone();
-            debug_assert_eq!(pred_entry.right_sibling, consts::NO_STREAM);
-            pred_entry.left_sibling = left_sibling;
+            let pred_left = self.dir_entry(predecessor_id).left_sibling;
+            if pred_left != consts::NO_STREAM {
+                self.dir_entry_mut(pred_left).color = Color::Black;
+                touched_ids.push(pred_left);
+            }
+            if pred_parent_id != stream_id {
+                self.dir_entry_mut(pred_parent_id).right_sibling = pred_left;
+                touched_ids.push(pred_parent_id);
+                self.dir_entry_mut(predecessor_id).left_sibling = left_sibling;
+            }
+            let color = self.dir_entry(stream_id).color;
+            let pred_entry = self.dir_entry_mut(predecessor_id);
             pred_entry.right_sibling = right_sibling;
-            pred_entry.write_to(&mut self.seek_to_dir_entry(stream_id)?)?;
-            *self.dir_entry_mut(stream_id) = pred_entry;
-            stream_id = predecessor_id;
+            pred_entry.color = color;
+            touched_ids.push(predecessor_id);
+            predecessor_id
+        };
+        for touched_id in touched_ids {
+            self.write_dir_entry(touched_id)?;
         }
-        // TODO: recolor nodes
 
         // Remove the entry.
         debug_assert_eq!(stream_ids.last(), Some(&stream_id));
